@@ -137,6 +137,12 @@ Fixpoint exit_events (inner_first : list mwspec) (r : list V) : list event :=
 Definition res_out (inner_first : list mwspec) (r : list V) : list V :=
   fold_left (fun r m => ms_post m r) inner_first r.
 
+(** ids of the middleware entered / left, in trace order *)
+Definition enter_ids (tr : list event) : list Z :=
+  flat_map (fun e => match e with EEnter i _ => [i] | _ => [] end) tr.
+Definition exit_ids (tr : list event) : list Z :=
+  flat_map (fun e => match e with EExit i _ => [i] | _ => [] end) tr.
+
 (* ---- generated stubs ---- *)
 (** F<Svc>Client.<Method> and <svc>F<Method>.Process: [if len(ret) != n { panic(...) }] *)
 Definition arity_stub (nret : nat) (meth : handler) : handler :=
